@@ -625,6 +625,9 @@ class TorrentFileHybrid(MetaFile, ProgMixin):
         """
         info = self.meta["info"]
         info["meta version"] = 2
+        # start over: assembling again must not add to an earlier result
+        self.hashes, self.pieces, self.files = [], [], []
+        self.piece_layers = {}
 
         if os.path.isfile(self.path):
             info["file tree"] = {self.name: self._traverse(self.path)}
@@ -736,6 +739,10 @@ class TorrentAssembler(MetaFile, ProgMixin):
         """
         info = self.meta["info"]
         info["meta version"] = 2
+        # start over: assembling again must not add to an earlier result
+        self.hashes, self.files = [], []
+        self.pieces = bytearray()
+        self.piece_layers = {}
 
         if os.path.isfile(self.path):
             info["file tree"] = {self.name: self._traverse(self.path)}
